@@ -26,6 +26,7 @@ def main(argv):
             return 2
     if tier not in ("quick", "thorough"):
         tier = "quick"
+    sys.setrecursionlimit(3000)
     mod = importlib.import_module(f"vp.props.{prop.lower()}")
     if replay:
         return mod.replay(replay)
